@@ -207,6 +207,7 @@ type Interp struct {
 	syncState map[*Value]*syncObj
 	boundsUsed map[string]int
 	known map[*sym.Term]bool
+	schedMode string
 }
 
 type hookFn func(fr *frame, args []Value) Value
@@ -695,6 +696,7 @@ func (in *Interp) resetPath() {
 	in.sched = nil
 	in.fs = nil
 	in.pathViolations = 0
+	in.schedMode = ""
 	in.known = map[*sym.Term]bool{}
 	in.mapOrderOverride = ""
 	in.syncState = map[*Value]*syncObj{}
@@ -804,6 +806,11 @@ func (in *Interp) recordPath(res PathResult) {
 	case "budget":
 		st.PathsBudget++
 		st.Budget[res.Msg]++
+	case "deadlock":
+		st.PathsPanic++
+		if m := in.currentModel(); m != nil {
+			in.reportViolation("assert", "deadlock", "deadlock: "+res.Msg, nil, m)
+		}
 	case "panic":
 		st.PathsPanic++
 		if in.cfg.PanicsAreViolations {
